@@ -205,8 +205,18 @@ def invariants(chk: Check, n):
     rng = chk.rng
     for i in range(n):
         p = rand_params(rng, i)
+        if i % 4 == 0:
+            # parameters left at their DEFAULTS are parameters too: "the same parameters" for users and sessions data
+            # includes the ones nobody passed (all defaults, or only ratio / revenue parameters given — any such mix is
+            # valid because the stock defaults of the remaining ones are)
+            keep = [(), ("ratio",), ("ratio", "revenue_uplift", "avg_revenue_per_order")][(i // 4) % 3]
+            p = {k: v for k, v in p.items() if k in keep}
         cov = i % 2 == 1
         nu = rng.choice([10, 11, 50, 400, 3000])
+        if i == n - 1:
+            # very many sessions per user and very few orders: per-session averages far below one cent / one hundredth of
+            # an order — "zero without orders" must survive whatever rounding the generator applies
+            p, cov, nu = dict(avg_sessions=400, avg_orders_per_session=0.05), True, (400 if n >= 100 else 40)
         seed = rng.randint(0, 10**6)
         inp = dict(params=p, covariates=cov, n_users=nu, seed=seed)
         chk.case(("invariants", cov, nu, tuple(sorted(p.items()))))
